@@ -55,6 +55,12 @@ PLAN = {
         "exhaustive_note": "all 4x5x6 problem-type codes x {minimal, dense min, dense max} x 4 layouts; 4 error classes with expected line numbers",
         "chunk": 1500,
     },
+    "C20": {
+        "mc": [{"name": "artifact", "module": "MC_Artifact.tla", "cfg_quick": "MC_Artifact.cfg", "cfg_thorough": "MC_Artifact_T.cfg"}],
+        "gen": [G("artifact", "Gen_Artifact.cfg", module="Gen_Artifact.tla")],
+        "exhaustive_note": "every add_* sequence of length <= 3 (quick) / <= 4 (thorough) over 4 kinds x 2 payloads (default = empty bytes under every kind, small), and all kind sequences up to length 4 / 6",
+        "chunk": 200, "unique_names": True,
+    },
     "C16": {
         "gen": [G("bound", "Gen_Fn_Bound.cfg"), G("contains", "Gen_Fn_Contains.cfg"), G("evalbound", "Gen_Fn_EvalBound.cfg"), G("content", "Gen_Fn_Content.cfg")],
         "drive": [D("eval_bound", 2000, 100000), D("content_factor", 2000, 100000)],
@@ -84,6 +90,7 @@ OWN = {
     "C17": {"mps_load": "*"},
     "C18": {"mps_roundtrip": "*"},
     "C19": {"qplib_load": "*"},
+    "C20": {"artifact": "*"},
     "C16": {"bound_op": "*", "eval_bound": "*", "content_factor": "*"},
     "C05": {"evaluate": "*"},
     "C06": {"evaluate_samples": "*"},
